@@ -68,8 +68,9 @@ Fixpoint variants (n : node) {struct n} : list val :=
           let ks := if n_ptr kn then map (fun k => VPtr (Some k)) ks else ks in
           let vs := variants vn in
           let k1 := nth 0 ks (VInt 0) in let k2 := nth 1 ks (VInt 1) in
-          [VMap true []; VMap false []; VMap false [(k1, nth_mod (VInt 0) vs 1)];
-           VMap false [(k1, nth_mod (VInt 0) vs 2); (k2, nth_mod (VInt 0) vs 0)]]
+          (* (the second key holds a value that is not the zero value: an entry that is skipped or lost must show) *)
+          [VMap true []; VMap false []; VMap false [(k1, nth_mod (VInt 0) vs 0)];
+           VMap false [(k1, nth_mod (VInt 0) vs 2); (k2, nth_mod (VInt 0) vs 1)]]
         | _, _ => []
         end
       | typeSlice =>
